@@ -61,6 +61,16 @@ def fixed(minutes):
     return ZoneSpec._cache[key]
 
 
+def fixed_seconds(seconds):
+    """a fixed offset with a seconds part (pre-standard-time local mean times are like this)"""
+    key = ("fixed_s", seconds)
+    if key not in ZoneSpec._cache:
+        tz = datetime.timezone(datetime.timedelta(seconds=seconds))
+        off = seconds * 1_000_000
+        ZoneSpec._cache[key] = ZoneSpec(tz, "fixeds%+d" % seconds, [(0, off)], [(0, off)])
+    return ZoneSpec._cache[key]
+
+
 def _bisect(f, lo, hi, vlo):
     """lo, hi: datetimes (naive) with f(lo) == vlo != f(hi); returns first second where f != vlo"""
     one = datetime.timedelta(seconds=1)
@@ -130,8 +140,11 @@ def rand_zone(rng, date=None):
     if date is not None and in_span(date) and rng.random() < 0.45:
         return iana(rng.choice(IANA_NAMES))
     k = rng.random()
-    if k < 0.15:
+    if k < 0.12:
         return fixed(0)
+    if k < 0.2:
+        return fixed_seconds(rng.choice([1172, -2670, -1521, 19 * 60 + 32, 21208, -17762,
+                                         rng.randint(-43200, 50400)]))
     if k < 0.5:
         return fixed(60 * rng.randint(-12, 14))
     if k < 0.8:
